@@ -1,0 +1,19 @@
+//go:build verif
+
+package dbg
+
+// Contracts for the verification framework in /verif (comment-only file; it
+// contains no code and is excluded from normal builds by the build tag).
+
+// ---- C16: activity of a state in a telemetry record ----
+// A state is active in a record when its index position exists in the record's
+// clocks and holds an odd tick; a name outside the index, or an index beyond a
+// short clock (records from before a schema change), is inactive - never a read
+// outside the clocks.
+//@ func (m *DbgMsgTx) Is(statesIndex am.S, states am.S) (r bool)
+//@   props C16
+//@   ensures def: r <==> (forall k int :: 0 <= k && k < len(states) ==> index(statesIndex, states[k]) != -1 && index(statesIndex, states[k]) < len(m.Clocks) && odd(m.Clocks[index(statesIndex, states[k])]))
+//@   loop 1 invariant seen: forall k int :: 0 <= k && k < idx1 ==> index(statesIndex, states[k]) != -1 && index(statesIndex, states[k]) < len(m.Clocks) && odd(m.Clocks[index(statesIndex, states[k])])
+//@ func (m *DbgMsgTx) Is1(statesIndex am.S, state string) (r bool)
+//@   props C16
+//@   ensures def: r <==> (index(statesIndex, state) != -1 && index(statesIndex, state) < len(m.Clocks) && odd(m.Clocks[index(statesIndex, state)]))
